@@ -34,9 +34,10 @@ def c13_jobs(rng, quick):
             add("dm", C02.recipe(rng, k, n), ())
     # Aztec: automatic size, then every smaller size explicitly
     sizes = sorted([(11 + 4 * L, -L) for L in range(1, 5)] + [(14 + 4 * L + 1 + 2 * (((14 + 4 * L) // 2 - 1) // 15), L) for L in range(1, 33)])
-    payloads = [0, 1, 5, 12, 20, 40, 60, 100, 150, 250] if quick else [0, 1, 3, 5, 8, 12, 16, 20, 30, 40, 52, 60, 80, 100, 150, 200, 250, 400, 600, 900, 1300]
+    # dense sweep over the small sizes (where compact and full-range symbols compete) at low and default percentages, sparse above
+    payloads = (list(range(0, 131, 3)) + [150, 250]) if quick else (list(range(0, 200)) + [250, 400, 600, 900, 1300])
     for n in payloads:
-        for pct in ((23, 33) if quick else (0, 23, 33, 50, 100)):
+        for pct in ((0, 10, 33) if quick else (0, 5, 10, 16, 23, 33, 50, 100)):
             c = bytes(rng.choice(b"abcdefg hij") for _ in range(n))
             jobs.append(gen.enc("aztec", list(c), (pct, 0), proj="full", hist=len(jobs)))
             h = jobs[-1]["hist"]
@@ -45,7 +46,7 @@ def c13_jobs(rng, quick):
                 cap_bits = ((88 if req < 0 else 112) + 16 * abs(req)) * abs(req)
                 if cap_bits < 0.5 * est or cap_bits > 2.5 * est + 400:
                     continue
-                jobs.append(gen.enc("aztec", list(c), (pct, req), proj="full", hist=h))
+                jobs.append(gen.enc("aztec", list(c), (pct, req), proj="outcome", hist=h))
     # PDF417: codeword counts swept through the shapes
     for lv in range(9):
         for n in (range(0, 1700, 23) if not quick else [0, 1, 7, 30, 90, 250, 600, 1100, 1600]):
